@@ -56,9 +56,6 @@ def body_hist(s1, s2, tol1, tol2, third=None):
     got = run(s2, ctx, tol2)
     require(got == ref, 'the same input parses differently after other inputs were parsed with the same objects')
     require(snapshot(ctx) == before, 'parsing modified the context database')
-    # and once more: the result is stable under repetition
-    again = run(s2, ctx, tol2)
-    require(again == ref, 'parsing the same input twice gives different trees')
     return isinstance(ref, list) and len(ref) > 3
 
 
@@ -141,7 +138,10 @@ def one_hole(sk):
 
 def two_pre(sk1, sk2, quick=True):
     if quick:
-        sk2 = one_hole(sk2)
+        # quick tier: the symbolic dimension is the history (one free character in the first document);
+        # the second document is a fixed probe
+        sk1 = one_hole(sk1)
+        sk2 = sk2.replace('?', 'x')
     return skel_pre(sk1, 's1') + skel_pre(sk2, 's2')
 
 
@@ -201,7 +201,7 @@ META = dict(
                'LatexContextDb.freeze, spec objects of the compact and of the default context', 'LatexWalker.parse_content'],
     bounds=dict(quick='histories of two parses (tolerant, then strict) sharing one context database and the warm standard-argument-parser '
                       'cache, over 12 pairs of skeletons exercising every standard argument type (first document typically left '
-                      'unterminated), 1-2 free characters in the first document and one in the second; all pairs of free strings of length <= 1; one three-call history; 4 '
+                      'unterminated), one free character in the first document, the second being a fixed probe document; all pairs of free strings of length <= 1; one three-call history; 4 '
                       'pairs on the shared default context; each compared with fresh objects + emptied caches',
                 thorough='three strict/tolerant combinations per pair; free strings <= 3 / <= 2'),
     stubs=['logging disabled', 'step budget', '"fresh interpreter" = freshly built context and spec objects and an emptied '
